@@ -357,7 +357,7 @@ def true_ratio_single(t, xstar):
         M = np.stack([x, xi], axis=1)
         c_nom0 = math.sqrt(max(0.0, 1 - s_ * s_))
         scale_x = float(np.max(np.abs(xstar))) if len(xstar) else 0.0
-        if np.allclose(c_nom0 * x + s_ * xi, xstar, rtol=0, atol=8e-16 * (scale_x + float(np.max(np.abs(s_ * xi))) + 1e-300)):
+        if np.allclose(c_nom0 * x + s_ * xi, xstar, rtol=0, atol=max(8e-16, 4 * getattr(t, "wtol", 0.0) if getattr(t, "wtol", 0.0) > 1e-12 else 0.0) * (scale_x + float(np.max(np.abs(s_ * xi))) + 1e-300)):
             # the recorded points are reproduced to rounding by the prior-reversible pair (sqrt(1-s²), s):
             # take it (solving a 2-parameter fit is ill-conditioned when |s xi| << |x|)
             a, lam = c_nom0, s_
@@ -404,7 +404,7 @@ def true_ratio_single(t, xstar):
         c0 = 0.5 * sig * sig
         big = float(np.max(np.abs(xstar))) + float(np.max(np.abs(x)))
         t.cond = big / sig
-        if np.all(np.isfinite(gx)) and np.allclose(x + c0 * gx + sig * t.z, xstar, rtol=0, atol=8e-16 * (big + float(np.max(np.abs(c0 * gx))) + 1e-300)):
+        if np.all(np.isfinite(gx)) and np.allclose(x + c0 * gx + sig * t.z, xstar, rtol=0, atol=max(8e-16, 4 * getattr(t, "wtol", 0.0) if getattr(t, "wtol", 0.0) > 1e-12 else 0.0) * (big + float(np.max(np.abs(c0 * gx))) + 1e-300)):
             # reproduced to rounding by the Langevin pair (drift coefficient sigma²/2): take it (the observed
             # drift x* - x - sigma z is below the resolution of x when the step is tiny relative to the state)
             c = c0
@@ -588,7 +588,7 @@ def build_target(cuqi, kernel, sc):
     return target
 
 
-def build_sampler(cuqi, kernel, sc, scale, x0):
+def build_sampler(cuqi, kernel, sc, scale, x0, rng=None):
     """real sampler on recorded wrappers of the scenario's target"""
     D = cuqi.distribution
     target = build_target(cuqi, kernel, sc)
@@ -611,7 +611,7 @@ def build_sampler(cuqi, kernel, sc, scale, x0):
     if kernel == "legPCN":
         return L.pCN(target, scale=scale, x0=x0)
     if kernel == "legMALA":
-        return L.MALA(target, scale=scale, x0=x0)
+        return L.MALA(target, scale=scale, x0=x0, rng=rng)
     raise ValueError(kernel)
 
 
@@ -652,6 +652,7 @@ def new_T(kernel, sc, hist, step, x, logd, grad, scale, script, hook):
     t.xi = t.sigma = t.z = None
     t.int_dtype = False
     t.f32 = False
+    t.wtol = 1e-12
     sc.calls.clear(); sc.gcalls.clear(); script.log.clear()
     sc.events = script.log
     if kernel.endswith("PCN"):
@@ -692,6 +693,10 @@ def run_exp(cuqi, kernel, sc, hist, nsteps, scale, x0, script, hook, out, sc2=No
             sc = sc2
             s.target = build_target(cuqi, kernel, sc)
             s.reinitialize()
+        elif hist == "warmup-sample-warmup":
+            s.warmup(8, tune_freq=0.25); s.sample(2); s.warmup(8, tune_freq=0.25)      # repeated phases
+        elif hist == "warmup1":
+            s.warmup(1)                                                                # phase of length exactly 1
         elif hist == "rescale":
             # option re-assigned after first use: the kernel must use the CURRENT scale consistently
             s.sample(3)
@@ -716,8 +721,9 @@ def run_exp(cuqi, kernel, sc, hist, nsteps, scale, x0, script, hook, out, sc2=No
         def wstep():
             x, logd, grad, sca = exp_snapshot(kernel, s)
             t = new_T(kernel, sc, hist, len(recs), x, logd, grad, sca, script, hook)
-            t.int_dtype = bool(np.issubdtype(np.asarray(s.current_point).dtype, np.integer))
+            t.int_dtype = bool(np.issubdtype(np.asarray(s.current_point).dtype, np.integer) or np.asarray(s.current_point).dtype == np.bool_)
             t.f32 = np.asarray(s.current_point).dtype == np.float32
+            t.wtol = {"float32": 1e-6, "float16": 2e-3}.get(str(np.asarray(s.current_point).dtype), 1e-12)
             acc = orig_step()
             hook.t = None
             finish_T(t, script)
@@ -737,10 +743,17 @@ def run_exp(cuqi, kernel, sc, hist, nsteps, scale, x0, script, hook, out, sc2=No
     out.append(("stored", kernel, sc, recs, stored, np.asarray(got)[:, n0:] if np.asarray(got).ndim == 2 else None))
 
 
+_RNG_TOGGLE = [0]
+
+
 def run_leg(cuqi, kernel, sc, hist, nsteps, scale, x0, script, hook, out):
     x0_before = snap(x0)
     with quiet(), script.installed():
-        s = build_sampler(cuqi, kernel, sc, scale, x0)
+        # optional `rng` argument of legacy ULA/MALA: a generator object with the same scripted stream
+        if kernel == "legMALA" and not hasattr(sc, "use_rng"):
+            _RNG_TOGGLE[0] += 1
+            sc.use_rng = _RNG_TOGGLE[0] % 2 == 0
+        s = build_sampler(cuqi, kernel, sc, scale, x0, rng=(script if getattr(sc, "use_rng", False) else None))
         hook.t = None
         orig = s.single_update
         recs = []
@@ -878,7 +891,7 @@ def oracle(ctx, t, stats):
             # each inner iteration must be an MH step whose proposal differs from the CURRENT state in
             # coordinate j only (one-coordinate proposal centred at the current coordinate)
             expect = xt.copy(); expect[j] = qpt[j]
-            if drawn is not None and not trunc_failed and not close(qpt[j], drawn[j], 1e-6):
+            if drawn is not None and not trunc_failed and not close(qpt[j], drawn[j], max(1e-6, t.wtol)):
                 trunc_failed = True
                 fail("proposal-truncated", float(drawn[j]), float(qpt[j]),
                      f"component {j}: the coordinate evaluated/stored is not the drawn proposal coordinate (altered by the dtype of the "
@@ -979,7 +992,7 @@ def compare(ctx, t, out, stats):
             return False
         if all(a == float(b) for a, b in zip(mv, v)):
             return True
-        return vclose(v, pv(tok), 1e-6 if t.f32 else 1e-12)
+        return vclose(v, pv(tok), t.wtol)
 
     if out in ("bad-op", "err-cert"):
         return [("driver", out, "ok")]
@@ -993,7 +1006,7 @@ def compare(ctx, t, out, stats):
         if not tok_eq_float(logd1, t.logd1):
             diffs.append(("cached-logd", logd1, repr(t.logd1)))
         mq = pm(qs)
-        if len(mq) != len(t.queries) or not all(vclose(p, m, 1e-6 if t.f32 else 1e-12) for (p, _), m in zip(t.queries, mq)):
+        if len(mq) != len(t.queries) or not all(vclose(p, m, t.wtol) for (p, _), m in zip(t.queries, mq)):
             diffs.append(("proposal-points", qs[:120], [[float(v) for v in p] for p, _ in t.queries]))
         return diffs
     if k.endswith("MALA"):
@@ -1090,6 +1103,68 @@ def refusals(ctx, cuqi):
                     ctx.fail(key, desc, "refused", "accepted", "a non-symmetric proposal is accepted although the kernel uses the symmetric-proposal ratio")
 
 
+def undeclared_symmetry(ctx, cuqi):
+    """Proposals whose `is_symmetric` flag is None (undeclared) must be refused like asymmetric ones by both MH
+    constructors and by later assignment `sampler.proposal = p`: the kernels use the plain ratio pi(x')/pi(x).
+    If one is accepted, exhibit the failing input with one-sided increments: every accepted move then has exact
+    MH probability 0 (q(x|x') = 0)."""
+    D = cuqi.distribution
+    F = lambda x: -0.5 * float(np.sum(np.asarray(x, dtype=float) ** 2))
+    out = ctx.lean.drive(["prop 1 0"])[0]           # flag not True -> the model refuses
+    lrs = np.random.RandomState(99 + ctx.seed)
+    mkprop = lambda: D.UserDefinedDistribution(dim=2, sample_func=lambda: np.abs(lrs.randn(2)) + 0.25)   # is_symmetric is None
+    ways = [("expMH", "constructor", lambda t, p: cuqi.experimental.mcmc.MH(t, proposal=p, scale=0.5, initial_point=np.array([2.0, 2.0]))),
+            ("expMH", "assigned-later", lambda t, p: _assign(cuqi.experimental.mcmc.MH(t, scale=0.5, initial_point=np.array([2.0, 2.0])), p)),
+            ("legMH", "constructor", lambda t, p: cuqi.sampler.MH(t, proposal=p, scale=0.5, x0=np.array([2.0, 2.0]))),
+            ("legMH", "assigned-later", lambda t, p: _assign(cuqi.sampler.MH(t, scale=0.5, x0=np.array([2.0, 2.0])), p))]
+    for kn, how, ctor in ways:
+        t = D.UserDefinedDistribution(dim=2, logpdf_func=F)
+        desc = {"kernel": kn, "proposal": "UserDefinedDistribution(sample_func=0.25+|N(0,1)|), is_symmetric=None", "how": how}
+        ctx.case("proposal-validation", desc)
+        key = f"{kn}:validate:undeclared-symmetry"
+        try:
+            with quiet():
+                s = ctor(t, mkprop())
+            impl = "ok"
+        except Exception:
+            impl = "err"
+        if impl != out:
+            ctx.disagree(key, desc, out, impl, "proposal validation differs")
+        if impl != "ok":
+            continue
+        # run the real kernel with small uniforms; any accepted move goes up in every coordinate and cannot be reversed
+        real_rand = np.random.rand
+        try:
+            np.random.rand = lambda *a: 1e-3
+            with quiet():
+                if kn == "expMH":
+                    s.initialize()
+                    for _ in range(20):
+                        x = arr(s.current_point).copy()
+                        a = int(np.atleast_1d(s.step())[0])
+                        y = arr(s.current_point).copy()
+                        if a == 1:
+                            break
+                else:
+                    x = np.array([2.0, 2.0]); a = 0
+                    for _ in range(20):
+                        r = s.single_update(x.copy(), F(x))
+                        y, a = arr(r[0]).copy(), int(np.atleast_1d(r[-1])[0])
+                        if a == 1:
+                            break
+        finally:
+            np.random.rand = real_rand
+        if a == 1 and np.all(y > x):
+            ctx.fail(key, {**desc, "x": [float(v) for v in x], "accepted_proposal": [float(v) for v in y], "u": 1e-3, "scale": 0.5},
+                     "accept probability min(1, pi(x')q(x|x')/(pi(x)q(x'|x))) = 0 (increments are one-sided: q(x|x') = 0)", "accepted",
+                     "a proposal of undeclared symmetry is accepted by the sampler and moves are accepted with the symmetric-proposal ratio")
+
+
+def _assign(sampler, p):
+    sampler.proposal = p
+    return sampler
+
+
 def cw_nonsymmetric(ctx, cuqi):
     """experimental CWMH defines validate_proposal ("Proposal must be symmetric") but its own
     `proposal` property setter never calls it: a non-symmetric conditional proposal is accepted
@@ -1163,6 +1238,7 @@ def run(ctx):
     stats = {}
     refusals(ctx, cuqi)
     cw_nonsymmetric(ctx, cuqi)
+    undeclared_symmetry(ctx, cuqi)
 
     n_sc = (40 if not thorough else 400)
     nsteps = 5 if not thorough else 8
@@ -1257,14 +1333,27 @@ def run(ctx):
     # dtype / container of the starting point, every kernel, both sampling entry points, well-accepting targets
     for ki, k in enumerate(KERNELS):
         rs = np.random.RandomState(5000 * ctx.seed + 31 * ki + 7)
-        for kind in ("int", "f32", "list"):
+        for kind in ("int", "f32", "list", "uint8", "int8", "bool", "float16"):
             for hist in (("fresh", "warmup") if k.startswith("exp") else ("plain", "adapt")):
                 if kind == "list" and k == "expPCN":
                     continue
                 sc = make_scenario(rs, k, 2000 + len(records), flat=True)
                 base = rs.randint(-3, 4, size=sc.dim)
-                x0 = base.astype(int) if kind == "int" else (base.astype(np.float32) + np.float32(0.5) if kind == "f32" else [float(v) + 0.5 for v in base])
-                if kind == "int" and k == "expCWMH":
+                if kind == "int":
+                    x0 = base.astype(int)
+                elif kind == "f32":
+                    x0 = base.astype(np.float32) + np.float32(0.5)
+                elif kind == "list":
+                    x0 = [float(v) + 0.5 for v in base]
+                elif kind == "uint8":
+                    x0 = np.abs(base).astype(np.uint8)         # arithmetic in this dtype would wrap
+                elif kind == "int8":
+                    x0 = base.astype(np.int8)
+                elif kind == "bool":
+                    x0 = base > 0                               # arithmetic in this dtype would be logical
+                else:
+                    x0 = base.astype(np.float16) + np.float16(0.5)
+                if kind in ("int", "uint8", "int8", "bool") and k == "expCWMH":
                     sc.cls = "int-x0"
                 scale = 0.5 if not k.endswith("MALA") else 0.25
                 script = Script(ctx.seed * 7919 + 9000 + ki * 31 + len(records))
@@ -1367,6 +1456,10 @@ def run(ctx):
                 sc = make_scenario(rs, k, 3000 + so)
                 so += 1
                 launch(k, sc, "rescale", nsteps, 0.5 if not mala else 0.25, rs.randint(-2, 3, size=sc.dim) / 2.0, so)
+                for h_ in ("warmup-sample-warmup", "warmup1"):
+                    sc = make_scenario(rs, k, 3000 + so)
+                    so += 1
+                    launch(k, sc, h_, nsteps, 0.5 if not mala else 0.25, rs.randint(-2, 3, size=sc.dim) / 2.0, so)
 
     # model side
     from harness.core import KnownMap
